@@ -15,7 +15,12 @@ from ..sweep import sweep
 
 ID = 'C06'
 LEVEL = 'exploration'
-RULE = ('one run = one seeded history on FileStorage (classes without '
+RULE = ('6 % of the runs: a scheduled world (C02/C03 machinery) in which a '
+        'client commits several cells in one transaction and undoes it '
+        'while readers with partly filled caches cross their boundaries, '
+        'with line-level pre-emption inside the MVCC adapter and the '
+        'snapshot oracle.  Otherwise: '
+        'one run = one seeded history on FileStorage (classes without '
         'resolver, with a merging resolver, with a failing resolver) in '
         'which undo is the dominant operation: latest and older '
         'transactions, with intervening unrelated / byte-equal / mergeable '
